@@ -9,13 +9,20 @@ import cxxscan
 from translate import TranslateError, HEADER, read
 
 FILE = "include/iora/core/thread_pool.hpp"
-SHARED = ["_mutex", "_configMutex", "_condition", "_tasks", "_threads", "_shutdown", "_shutdownComplete", "_accepting", "_pendingSpawns",
+SHARED = ["_mutex", "_configMutex", "_condition", "_tasks", "_threads", "_shutdown", "_shutdownComplete", "_shutdownCompleteEpoch", "_shutdownEpoch", "_accepting", "_pendingSpawns",
           "_activeThreads", "_busyThreads", "_threadsExited", "_threadsCreated", "_waitingThreads"]
 
 TOK = re.compile(r"""
    (?P<guard>std::(?:unique_lock|lock_guard|scoped_lock)\s*<[^>]*>\s*(?P<gname>\w+)\s*[\({]\s*(?:\w+\s*->\s*)?(?P<gm>_\w+)\s*[\)}])
  | (?P<gunlock>\b(?P<uname>lock)\s*\.\s*unlock\s*\(\s*\))
- | (?P<cmpl>\b_shutdownComplete\s*\.\s*(?P<cmplop>load|store)\s*\(\s*(?P<cmplv>\w*))
+ | (?P<cmpl>\b(?P<cmpln>_shutdownComplete(?:Epoch)?)\s*\.\s*(?P<cmplop>load|store)\s*\(\s*(?P<cmplv>(?:(?!std\b)\w+)?)\s*,?\s*(?:std::memory_order_(?P<cmplo>\w+))?)
+ | (?P<epinc>\+\+\s*_shutdownEpoch\b)
+ | (?P<epread>\b_shutdownEpoch\b)
+ | (?P<trykw>\btry\b)
+ | (?P<catch>\bcatch\s*\(\s*(?P<cty>[^)]*?)\s*\))
+ | (?P<thnone>\b_threads\s*\.\s*empty\s*\(\s*\))
+ | (?P<discard>\bdiscardNewestTaskLocked\s*\(\s*\))
+ | (?P<tswap>\b_tasks\s*\.\s*swap\s*\()
  | (?P<modecond>\bmode\s*(?:==|!=)\s*ShutdownMode::\w+)
  | (?P<loop>\bfor\s*\(\s*std::size_t\s+i\s*=\s*0\s*;\s*(?P<loopc>[^;]+);)
  | (?P<wcount>\bworkerCount\s*=\s*(?P<wcexpr>_workerScaling[^;]+);)
@@ -114,11 +121,28 @@ def skeleton(body, where, skip_lambda=False):
                 gd[3] = False
                 gd.append(("explicit", depth))
         elif m.group("cmpl"):
+            # the memory order is part of the event: for a caller that does not own the shutdown this load/store pair is the only
+            # happens-before edge to the tasks' writes (seq_cst when no order is given)
+            order = m.group("cmplo") or "seq_cst"
             if m.group("cmplop") == "load":
-                ev.append(("read", "_shutdownComplete", held))
+                ev.append(("read:" + order, m.group("cmpln"), held))
             else:
-                ev.append(("write:" + m.group("cmplv"), "_shutdownComplete", held))
+                ev.append(("write:" + m.group("cmplv") + ":" + order, m.group("cmpln"), held))
             covered.append(m.start())
+        elif m.group("epinc"):
+            ev.append(("inc", "_shutdownEpoch", held)); covered.append(m.start() + m.group(0).index("_shutdownEpoch"))
+        elif m.group("epread"):
+            ev.append(("read", "_shutdownEpoch", held)); covered.append(m.start())
+        elif m.group("trykw"):
+            ev.append(("try", "", held))
+        elif m.group("catch"):
+            ev.append(("catch:" + re.sub(r"\s+", "", m.group("cty")), "", held))
+        elif m.group("thnone"):
+            ev.append(("none?", "_threads", held)); covered.append(m.start())
+        elif m.group("discard"):
+            ev.append(("call", "discardNewestTaskLocked", held))
+        elif m.group("tswap"):
+            ev.append(("swap", "_tasks", held)); covered.append(m.start())
         elif m.group("modecond"):
             ev.append(("cond:" + re.sub(r"\s+", "", m.group(0)), "", held))
         elif m.group("loop"):
@@ -247,6 +271,8 @@ def gen(repo):
     has_locked = re.search(r"\bvoid\s+spawnWorkerLocked\s*\(", src) is not None
     sw = fb(src, "spawnWorker")
     rows.append(("spawnWorker", skeleton(sw, "spawnWorker", skip_lambda=True)))
+    if re.search(r"\bvoid\s+discardNewestTaskLocked\s*\(", src):
+        rows.append(("discardNewest", skeleton(fb(src, "discardNewestTaskLocked"), "discardNewestTaskLocked")))
     if has_locked:
         swl = fb(src, "spawnWorkerLocked")
         rows.append(("spawnWorkerLocked", skeleton(swl, "spawnWorkerLocked", skip_lambda=True)))
@@ -317,8 +343,6 @@ def gen(repo):
     t += "def skeleton : List (String × List (String × String × String)) := %s\n" % lean_rows(rows)
     t += "/-- predicate of the worker's `_condition.wait_for(lock, _idleTimeout, pred)` -/\n"
     t += 'def workerWaitPred : String := "%s"\n' % pred
-    t += "/-- the tree has a separate `spawnWorkerLocked()` (creation + registration under the caller's lock) -/\n"
-    t += "def hasSpawnWorkerLocked : Bool := %s\n" % ("true" if has_locked else "false")
     t += "/-- constructor: default shutdown mode, initialiser of `_maxSize`, body of `effectiveMaxSize` (blanks removed) -/\n"
     t += 'def ctorDefaultMode : String := "%s"\ndef maxSizeInit : String := "%s"\ndef effectiveMaxSizeBody : String := "%s"\n' % (
         mc.group(1), mmax.group(1), eff_body)
